@@ -356,6 +356,22 @@ def regularPolygon (L : Lib) (_radius : Pack) : Except Err Dt := do
   let rot ← standardRotation L .pyFloat                        -- 2 * pi / n is a Python float
   pure (promote start rot)
 
+/-- `Isometry.standard_loxodromic(dimension, parameter)`:
+`np.diag(np.concatenate(([parameter, 1.0/parameter], np.ones(dimension - 1))))` conjugated by the
+`float64` basis change -/
+def standardLoxodromic (_L : Lib) (parameter : Pack) : Except Err Dt := do
+  let diag := promote (promote parameter.asarrayDtype .float64) .float64     -- [p, 1.0/p] ++ ones
+  pure (promote .float64 (promote diag .float64))
+
+/-- `TangentVector.point_along(distance)` for the base tangent vector: `zeros(like=proj_data)`,
+`kleinian_pt[..., 0] = hyp_to_affine_dist(distance)` (cast on assignment), `Point(…, KLEIN)`, then
+`origin_to().apply(…)` -/
+def pointAlongDt (L : Lib) (_distance : Pack) : Except Err Dt := do
+  let base ← zeros L none none true                            -- get_base_tangent: float64 data
+  let klein ← zeros L (some (.arr .r2 base)) none true
+  let pt ← pointFromAffine L (.arr .r1 klein)
+  pure (promote pt base)
+
 /-- `CoxeterGroup(matrix=m).bilinear_form()` and `cartan_representation(2 * form)` -/
 def coxeterRep (L : Lib) (coxeterMatrix : Pack) : Except Err Dt := do
   let dtype ← checkType L none none true                       -- check_type(**kwargs)
@@ -370,6 +386,7 @@ def coxeterRep (L : Lib) (coxeterMatrix : Pack) : Except Err Dt := do
 
 inductive Entry
   | rotationMatrix | standardRotation | elliptic | sl2Iso | fromAngle | regularPolygon
+  | standardLoxodromic | pointAlong | regularPolygonAngle
   | coxeterRep | arrayLike | zerosFloat | identityFloat
   | pointHyperboloid | pointFromAffineHyperboloid | transformationInv
   /- the following keep an integer dtype for integer-typed input by design
@@ -379,7 +396,7 @@ inductive Entry
 
 def Entry.all : List Entry :=
   [.rotationMatrix, .standardRotation, .elliptic, .sl2Iso, .fromAngle, .regularPolygon,
-   .coxeterRep, .arrayLike, .zerosFloat, .identityFloat, .pointHyperboloid,
+   .standardLoxodromic, .pointAlong, .regularPolygonAngle, .coxeterRep, .arrayLike, .zerosFloat, .identityFloat, .pointHyperboloid,
    .pointFromAffineHyperboloid, .transformationInv,
    .zeros, .identity, .pointCtor, .pointFromAffine, .transformationCtor]
 
@@ -398,6 +415,9 @@ def entryDtype (L : Lib) : Entry → Pack → Except Err Dt
   | .sl2Iso, p => sl2Iso L p
   | .fromAngle, p => fromAngle L p
   | .regularPolygon, p => regularPolygon L p
+  | .standardLoxodromic, p => standardLoxodromic L p
+  | .pointAlong, p => pointAlongDt L p
+  | .regularPolygonAngle, p => regularPolygon L p      -- `angle=` only enters through `regular_polygon_radius(n, angle)`
   | .coxeterRep, p => coxeterRep L p
   | .arrayLike, p => arrayLike L p
   | .zerosFloat, p => zeros L (some p) none false
